@@ -164,3 +164,17 @@ Example import_bounds :
   ex_run [Purpose; Coin; ReimportRaw true (Some (3, 0))] = Some (3, true, []).
 Proof. split; vm_compute; reflexivity. Qed.
 Print Assumptions import_bounds.
+
+(* the hypothesis of keys_equal_plain_derivation is satisfiable, and the conclusion is what one
+   expects on a concrete derivation function (key = reversed list of the indices applied) *)
+Example keys_premise_satisfiable :
+  let ckd := fun (k : list N) (i : N) => (Ok (i :: k) : res (list N)) in
+  (forall k i, is_hardened i = false -> ckd k i = ckd k i) /\
+  match from_seed (list N) [] with
+  | inl s0 => key (run (list N) ckd ckd ex_coin s0
+                     [Purpose; Coin; Account 0; ReimportExt true None; Change 0; AddressIndex 9])
+              = rev (canonical ex_coin 0 0 9)
+  | inr _ => False
+  end.
+Proof. split; [reflexivity|vm_compute; reflexivity]. Qed.
+Print Assumptions keys_premise_satisfiable.
